@@ -175,6 +175,61 @@ def _e2e_job(job):
     return st
 
 
+def _two_files(_):
+    """two input files streamed in one run (estimate_importances_minibatches is called once per file): cardinalities, value counts and the rare-value store cover BOTH files"""
+    from collections import Counter as C_
+    from mc.common import scratch_dir as sd_, rm_scratch as rm_
+    C = cr()
+    st = Stats()
+    d = sd_('c13f')
+    try:
+        files = [[['u', 'x'], ['v', 'x'], ['u', 'y'], ['w', '']], [['u', 'z'], ['q', 'x'], ['q', 'x'], ['', 'y']]]
+        paths = []
+        for i, rows in enumerate(files):
+            p_ = os.path.join(d, f'part{i}.csv')
+            with open(p_, 'w') as f:
+                f.write('fa,fb\n' + ''.join(','.join(r) + '\n' for r in rows))
+            paths.append(p_)
+        for mb in (1, 2, 4):
+            for thr in (1, 2):
+                harness.reset_state()
+                args = harness.make_args(data_source='csv-raw', minibatch_size=mb, subsampling=1, task='identify_rare_values', heuristic='Constant', rare_value_count_upper_bound=thr, label_column='fb')
+                seen = []
+                fails = []
+                with harness.in_dir(d):
+                    for p_, rows in zip(paths, files):
+                        ok, r = safe(C.estimate_importances_minibatches, p_, ['fa', 'fb'], None, set(), args=args, data_encoding='utf-8', cpu_pool=harness.InlinePool(), delimiter=',', logger=harness.RecLogger())
+                        st.count('evaluations')
+                        st.count('transitions', len(rows) // mb)
+                        st.count('traces_validated')
+                        st.count('nontrivial')
+                        if not ok:
+                            fails.append(f'exception {r}')
+                            break
+                        seen += rows[:(len(rows) // mb) * mb]
+                        card = {k: len(v) for k, v in r[2].items()}
+                        exp_card = {h: len({x[i] for x in seen if x[i]}) for i, h in enumerate(['fa', 'fb'])}
+                        hist = {k: dict(v.default_counter) for k, v in r[8].items()}
+                        exp_hist = {h: dict(C_(x[i] for x in seen)) for i, h in enumerate(['fa', 'fb'])}
+                        cnt = C_((h, x[i]) for x in seen for i, h in enumerate(['fa', 'fb']))
+                        exp_rare = {k: v for k, v in cnt.items() if v <= thr}
+                        if card != exp_card:
+                            fails.append(f'after {os.path.basename(p_)}: cardinalities {card}, exact over the rows consumed in this run {exp_card}')
+                        if hist != exp_hist:
+                            fails.append(f'after {os.path.basename(p_)}: value counts {hist}, exact {exp_hist}')
+                        if dict(r[6]) != exp_rare:
+                            fails.append(f'after {os.path.basename(p_)}: rare-value store {dict(r[6])}, exact {exp_rare}')
+                        if fails:
+                            break
+                st.count('states', 2)
+                if fails:
+                    st.violation({'kind': 'two_files', 'minibatch_size': mb, 'threshold': thr}, '; '.join(fails[:2]), {'kind': 'two_files', 'fail': fails[0].split(':')[1][:20] if ':' in fails[0] else fails[0][:20]})
+    finally:
+        rm_(d)
+        harness.reset_state()
+    return st
+
+
 def e2e_cases(thorough):
     out = []
     for n_rows, mb in ((6, 2), (6, 3), (6, 6), (8, 2), (9, 3)):
@@ -193,7 +248,7 @@ def e2e_cases(thorough):
 
 def _dispatch(item):
     k, job = item
-    return {'hist': _hist_job, 'cov': _coverage_job, 'e2e': _e2e_job}[k](job)
+    return {'hist': _hist_job, 'cov': _coverage_job, 'e2e': _e2e_job, 'two_files': _two_files}[k](job)
 
 
 def run(ctx):
@@ -205,6 +260,7 @@ def run(ctx):
         if n <= 3:
             jobs += [('hist', (n, lo, hi, 'uni')) for lo, hi in shards(tot, 8)]
     jobs.append(('cov', None))
+    jobs.append(('two_files', None))
     ec = e2e_cases(ctx.thorough)
     jobs += [('e2e', ec[i::8]) for i in range(8)]
     for st in pmap(_dispatch, jobs):
@@ -218,6 +274,8 @@ def eval_case(case):
     st = Stats()
     if case['kind'] == 'history':
         return [m for _, m in judge_history([list(r) for r in case['rows']], tuple(case['batches']), st, set())]
+    if case['kind'] == 'two_files':
+        return [v['what'] for v in _two_files(None).violations if v['case']['minibatch_size'] == case['minibatch_size'] and v['case']['threshold'] == case['threshold']]
     if case['kind'] == 'coverage':
         import pandas as pd
         C = cr()
